@@ -31,4 +31,4 @@ if [ "${SKIP_SUITE:-0}" != 1 ]; then
   ( cd "$WT" && go test -vet=off -count=1 -timeout 40m ./... 2>&1 | grep -v "^ok\|no test files" | head -12 )
 fi
 echo "--- check $PROP against patched tree"
-VERIF_REPO="$WT" VERIF_BUILD="$B" VERIF_EVIDENCE_DIR="$EV" "$HERE/check" "$PROP" "$@" 2>&1 | grep -E "^(VIOLATION|INCONCLUSIVE|C[0-9]+ |  key=|BUILD)" | cut -c1-260 | head -8
+VERIF_REPO="$WT" VERIF_BUILD="$B" VERIF_EVIDENCE_DIR="$EV" "$HERE/check" "$PROP" "$@" 2>&1 | grep -E "^(VIOLATION|INCONCLUSIVE|C[0-9]+ |  |BUILD)" | cut -c1-400 | head -12
